@@ -1,2 +1,45 @@
-(** C18 — files outside the supported subset are refused, not misread (placeholder; see PQ.ForeignProofs) *)
-From Coq Require Import List NArith.
+(** C18 — files outside the supported subset are refused, not misread.
+    Statements only; proofs in PQ.RefuseProofs (page level) and
+    PQ.ForeignProofs (file level, added when it lands).  [supported_page] and
+    [page_data] are the model of fields.go supportedPage / pageData (fix
+    e8bb9d0): the only page the reader decodes is a v1 data page with PLAIN
+    values and, where the column has levels, RLE levels, in one of the three
+    codecs; everything else makes the column read return an error before any
+    byte of the page is interpreted. *)
+From Coq Require Import List NArith ZArith.
+From PQ Require Import Bytes Rle MetaTypes Io Reader RefuseProofs.
+Import ListNotations.
+
+Theorem C18_only_v1_plain_rle_is_decoded : forall ph d r dph,
+  supported_page ph d r = Some dph ->
+  ph_type ph = PT_DATA_PAGE /\ ph_data ph = Some dph /\ dph_encoding dph = ENC_PLAIN /\
+  (d = true -> dph_def_encoding dph = ENC_RLE) /\ (r = true -> dph_rep_encoding dph = ENC_RLE).
+Proof. exact supported_page_some. Qed.
+Print Assumptions C18_only_v1_plain_rle_is_decoded.
+
+(** dictionary, index and v2 data pages *)
+Theorem C18_other_page_types_refused : forall ph d r,
+  ph_type ph <> PT_DATA_PAGE -> supported_page ph d r = None.
+Proof. exact supported_page_type. Qed.
+
+Theorem C18_missing_data_header_refused : forall ph d r,
+  ph_data ph = None -> supported_page ph d r = None.
+Proof. exact supported_page_nodata. Qed.
+
+Theorem C18_other_value_encodings_refused : forall ph dph d r,
+  ph_data ph = Some dph -> dph_encoding dph <> ENC_PLAIN -> supported_page ph d r = None.
+Proof. exact supported_page_encoding. Qed.
+
+Theorem C18_bit_packed_def_levels_refused : forall ph dph r,
+  ph_data ph = Some dph -> dph_def_encoding dph <> ENC_RLE -> supported_page ph true r = None.
+Proof. exact supported_page_def_levels. Qed.
+
+Theorem C18_bit_packed_rep_levels_refused : forall ph dph d,
+  ph_data ph = Some dph -> dph_rep_encoding dph <> ENC_RLE -> supported_page ph d true = None.
+Proof. exact supported_page_rep_levels. Qed.
+
+Theorem C18_other_codecs_refused : forall decompress codec ph s,
+  codec <> CODEC_SNAPPY -> codec <> CODEC_GZIP -> codec <> CODEC_UNCOMPRESSED ->
+  page_data decompress codec ph s = Err.
+Proof. exact page_data_unsupported_codec. Qed.
+Print Assumptions C18_other_codecs_refused.
